@@ -6,7 +6,7 @@ import parsegen as PG
 RULE = ("expression trees (depth<=4, 0-3 numbered inputs, anonymous sources, operators) rendered in random mixes of "
         "f(x, y) / f x y / (f x) y, redundant parentheses, blanks, newlines, # comments and in-line annotations `e : T`; "
         "each rendering is parsed by the implementation (structure: unify=False over wildcard-typed operators) and by the model; "
-        "oracle: the parsed tree equals the tree that was rendered; typed half: see props/exprgen.typed_cases; "
+        "oracle: the parsed tree equals the tree that was rendered, and with `defaults=True` and fewer inputs supplied the tree has the same shape and the same sharing of source objects; typed half: see props/exprgen.typed_cases; "
         "non-trivial = at least two applications; distinct by text")
 ASSUMPTIONS = ["operators of the structural language have the wildcard type, so no application fails to type"]
 TRUSTED = ["harness/parsegen.py: renderer of trees to text and tree dump of the implementation's Expr objects"]
@@ -45,6 +45,8 @@ def run(ctx):
                 if got != want:
                     ctx.fail(f"{text!r} parsed to {got}, rendered from {want}", {"check": "notation"},
                         {"lang": spec.to_json(), "text": text, "inputs": ninputs, "want": want})
+                elif rep == 0 and ninputs >= 1:
+                    defaults_case(ctx, lang, spec, text, ninputs, rng.randrange(0, ninputs))
     try:
         from props import exprgen
     except Exception:
@@ -52,8 +54,55 @@ def run(ctx):
     exprgen.typed_notation_cases(ctx)
 
 
+def identity_shape(e):
+    """the tree with every source leaf named by the first occurrence of its OBJECT"""
+    from transforge import expr as E
+    seen = []
+
+    def go(x):
+        if isinstance(x, E.Application):
+            return "(" + go(x.f) + " " + go(x.x) + ")"
+        if isinstance(x, E.Operation):
+            return x.operator.name
+        for k, y in enumerate(seen):
+            if y is x:
+                return f"#{k}"
+        seen.append(x)
+        return f"#{len(seen) - 1}"
+    return go(e)
+
+
+def defaults_case(ctx, lang, spec, text, ninputs, supplied):
+    """`defaults=True`: a number beyond the supplied inputs stands for a source made on demand - the same number always for the same object.
+    The tree must have the same shape, with the same sharing of source objects, as when every input is supplied"""
+    from transforge import expr as E
+    try:
+        full = lang.parse_expr(text, *[E.Source() for _ in range(ninputs)], unify=False)
+        part = lang.parse_expr(text, *[E.Source() for _ in range(supplied)], unify=False, defaults=True)
+    except Exception as ex:  # noqa
+        ctx.fail(f"{text!r} parses with {ninputs} inputs but with {supplied} supplied and defaults=True it raises {type(ex).__name__}",
+            {"check": "defaults", "error": type(ex).__name__}, {"lang": spec.to_json(), "text": text, "inputs": ninputs, "supplied": supplied})
+        return
+    ctx.evaluations += 1
+    ctx.count("defaults_cases")
+    a, b = identity_shape(full), identity_shape(part)
+    if a != b:
+        ctx.fail(f"{text!r}: with all {ninputs} inputs supplied the tree is {a}; with {supplied} supplied and defaults=True it is {b}",
+            {"check": "defaults"}, {"lang": spec.to_json(), "text": text, "inputs": ninputs, "supplied": supplied})
+
+
 def replay(ctx, payload):
     inp = payload["input"]
+    if "supplied" in inp:
+        spec = G.LangSpec([(n, v, p) for n, v, p in inp["lang"]])
+        ops = spec.build()
+        lang, aliases = PG.plain_language(spec, ops)
+        c = type("C", (), {"failures": [], "evaluations": 0, "count": lambda self, n, k=1: None,
+            "fail": lambda self, d, f, r: self.failures.append(d)})()
+        defaults_case(c, lang, spec, inp["text"], inp["inputs"], inp["supplied"])
+        for d in c.failures:
+            print(d)
+        return not c.failures
     if "text" not in inp or "opdecls" in inp:
         from props import exprgen
         return exprgen.replay_typed(ctx, inp)
